@@ -1,7 +1,286 @@
-//! C38 — not implemented yet.
-use vmon::report::Args;
+//! C38 — caching is transparent.
+//!
+//! One history per case on 1-3 tables sharing ONE long-lived Session whose cache capacities are
+//! {0, tiny (forces eviction), default-large}; every write goes through that Session. After every
+//! step every kind of read is done twice on the same store state — through the shared Session
+//! (long-lived handle and a newly opened one) and through a brand-new Session (reference) — and the
+//! results must be identical: full snapshot (schema, ordered rows with _rowid, deletion vectors,
+//! config, index list), take(), indexed queries, checkouts of old versions. Includes
+//! delete-all-objects-and-recreate at the same URI inside the Session.
+use crate::hist::{Env, Hist, HistCfg, Loc, OpKind, Weights};
+use crate::snap::{diff, take_snapshot, Snapshot};
+use futures::TryStreamExt;
+use lance::session::Session;
+use lance::Dataset;
+use serde_json::json;
+use std::collections::BTreeSet;
+use std::sync::Arc;
+use vmon::prng::Rng;
+use vmon::report::{Args, Report};
+use vmon::store::World;
+use vmon::table::{batch_to_rows, batches_to_rows, Actor, Row};
 
-pub fn run(_args: &Args) -> i32 {
-    eprintln!("HARNESS-ERROR C38 not implemented");
-    2
+fn weights() -> Weights {
+    use OpKind::*;
+    vec![
+        (10, Append),
+        (8, Overwrite),
+        (6, DeleteIds),
+        (2, DeleteVal),
+        (5, Update),
+        (4, Upsert),
+        (6, Compact),
+        (5, CreateIndex),
+        (2, OptimizeIndices),
+        (2, AddColumn),
+        (2, DropColumn),
+        (2, AlterColumn),
+        (2, UpdateConfig),
+        (8, Restore),
+        (5, DropRecreate),
+        (2, TagCreate),
+        (2, BranchCreate),
+        (2, StaleWrite),
+        (3, ConcurrentDeletes),
+    ]
+}
+
+const CACHES: &[(&str, usize, usize)] = &[
+    ("none", 0, 0),
+    ("tiny", 2 * 1024, 2 * 1024),
+    ("large", 256 * 1024 * 1024, 256 * 1024 * 1024),
+];
+
+pub fn run(args: &Args) -> i32 {
+    if args.extra.contains_key("selftest") {
+        return selftest(args);
+    }
+    let report = Report::new(
+        args,
+        "exploration",
+        "case = seeded history (<=12 quick / <=40 thorough ops, weighted towards overwrite, restore+append, delete/update/compaction with stable row ids, index builds, drop-and-recreate at the same URI) on 1-3 tables written through one shared Session with cache capacity none / tiny / large; after every step all reads (snapshot scan with _rowid, take, indexed queries, old-version checkouts) through the shared Session are compared with the same reads through a fresh Session. Non-trivial = >=6 differential reads and, unless capacity is none, >=1 cache hit recorded by the Session's CacheStats; distinct by (cache config, tables, op kinds, outcomes).",
+        (70, 900),
+    )
+    .with_min_nontrivial(10);
+    let max_ops = args.tier.pick(12usize, 40);
+    let max_cases = args.tier.pick(4000u64, 200_000);
+    if let Some(c) = args.extra.get("case").and_then(|c| c.parse::<u64>().ok()) {
+        std::env::set_var("E_HIST_VERBOSE", "1");
+        let rt = tokio::runtime::Builder::new_current_thread().enable_all().build().unwrap();
+        rt.block_on(one_case(args.seed, c, max_ops, &report));
+        return report.finish();
+    }
+    crate::hist::run_parallel(&report, args, 16, max_cases, 240, |i, report| {
+        Box::pin(one_case(args.seed, i, max_ops, report))
+    });
+    report.finish()
+}
+
+#[derive(Debug, Clone, PartialEq)]
+struct Reads {
+    take: Option<Vec<Row>>,
+    queries: Vec<(String, BTreeSet<i64>)>,
+}
+
+async fn other_reads(ds: &Dataset, offsets: &[u64], preds: &[String]) -> Result<Reads, String> {
+    let take = if offsets.is_empty() {
+        None
+    } else {
+        let b = ds.take(offsets, ds.schema().clone()).await.map_err(|e| format!("take: {e}"))?;
+        Some(batch_to_rows(&b))
+    };
+    let mut queries = vec![];
+    for p in preds {
+        let mut sc = ds.scan();
+        sc.filter(p).map_err(|e| format!("filter {p}: {e}"))?;
+        sc.project(&["id"]).map_err(|e| e.to_string())?;
+        let st = sc.try_into_stream().await.map_err(|e| format!("query {p}: {e}"))?;
+        let bs: Vec<arrow_array::RecordBatch> = st.try_collect().await.map_err(|e| format!("query {p}: {e}"))?;
+        queries.push((p.clone(), batches_to_rows(&bs).iter().filter_map(|r| r[0].as_i64()).collect()));
+    }
+    Ok(Reads { take, queries })
+}
+
+async fn full_read(ds: &Dataset, h: &Hist, offsets: &[u64], preds: &[String]) -> Result<(Snapshot, Reads), String> {
+    crate::walker::guard(async {
+        let s = take_snapshot(ds, &h.env.raw()).await?;
+        let r = other_reads(ds, offsets, preds).await?;
+        Ok((s, r))
+    })
+    .await
+}
+
+async fn one_case(seed: u64, case: u64, max_ops: usize, report: &Report) {
+    let mut rng = Rng::for_case(seed, case);
+    let mut cfg = HistCfg::random(&mut rng);
+    if rng.chance(2, 3) && cfg.storage != lance_encoding::version::LanceFileVersion::Legacy {
+        cfg.stable_row_ids = true;
+    }
+    let (cache_name, idx_bytes, meta_bytes) = CACHES[(case % 3) as usize];
+    let n_tables = rng.urange(1, 3);
+    let n_ops = rng.urange(6, max_ops);
+    let w = weights();
+    let world = World::memory();
+    let session = Arc::new(Session::new(idx_bytes, meta_bytes, Default::default()));
+    let actor = Actor { store: world.new_actor(0), session: session.clone(), commit_handler: None };
+    let mut h = Hist::new(Env::Mem { world, actor }, rng.clone(), cfg);
+    h.case = case;
+    for t in 0..n_tables {
+        let rec = h.create_table(&format!("memory://t{t}")).await;
+        if !rec.outcome.is_ok() {
+            report.harness_error(&format!("case {case}: create failed: {}", rec.outcome.text()));
+            return;
+        }
+    }
+    let mut reads = 0u64;
+    for _ in 0..n_ops {
+        if !report.time_left() {
+            break;
+        }
+        let kind: OpKind = *rng.pick_weighted(&w);
+        let rec = h.step(kind).await;
+        let ctx = |h: &Hist| json!({"seed": seed, "case": case, "config": h.cfg.describe(), "cache": cache_name, "tables": n_tables, "after_step": rec.brief(), "ops": h.ops_json(48)});
+        for loc in h.live_locs() {
+            let lin = &h.lin[&loc];
+            let latest = lin.latest();
+            let mut versions = vec![latest];
+            let olds: Vec<u64> = lin.snaps.keys().copied().filter(|v| *v != latest).collect();
+            for i in rng.sample_indices(olds.len(), 2.min(olds.len())) {
+                versions.push(olds[i]);
+            }
+            // read parameters from the model of the latest version (only used on the latest)
+            let n_rows = lin.model.rows.len() as u64;
+            let offsets: Vec<u64> = if n_rows > 0 { (0..4).map(|_| rng.below(n_rows)).collect() } else { vec![] };
+            let mut preds = vec![];
+            for name in lin.model.index_names.iter() {
+                if let Some(c) = name.strip_suffix("_idx") {
+                    if let Some(pos) = lin.model.col(c) {
+                        preds.push(format!("{c} IS NOT NULL"));
+                        if let Some(vmon::table::Cell::Int(i)) = lin.model.rows.values().next().map(|r| r[pos].clone()) {
+                            preds.push(format!("{c} = {i}"));
+                        }
+                    }
+                }
+            }
+            for v in versions {
+                let on_latest = v == latest;
+                let (offs, prs): (&[u64], &[String]) = if on_latest { (&offsets, &preds) } else { (&[], &[]) };
+                // reference: brand-new Session
+                let reference = match h.open_at(&loc, Some(v), true).await {
+                    Ok(ds) => full_read(&ds, &h, offs, prs).await,
+                    Err(e) => Err(format!("open: {e}")),
+                };
+                // shared Session, two ways
+                let mut shared: Vec<(&str, Result<(Snapshot, crate::c38::Reads), String>)> = vec![];
+                let via_handle = match lin.head.checkout_version((loc.branch.clone(), Some(v))).await {
+                    Ok(ds) => full_read(&ds, &h, offs, prs).await,
+                    Err(e) => Err(format!("checkout: {e}")),
+                };
+                shared.push(("long-lived handle", via_handle));
+                let via_open = match h.open_at(&loc, Some(v), false).await {
+                    Ok(ds) => full_read(&ds, &h, offs, prs).await,
+                    Err(e) => Err(format!("open: {e}")),
+                };
+                shared.push(("new open with the shared Session", via_open));
+                for (how, got) in shared {
+                    reads += 1;
+                    report.count("differential_reads", 1);
+                    if !prs.is_empty() {
+                        report.count("indexed_queries_compared", prs.len() as u64);
+                    }
+                    match (&reference, &got) {
+                        (Ok((rs, rr)), Ok((gs, gr))) => {
+                            report.count("rows_compared", rs.rows.len() as u64);
+                            if let Some((class, detail)) = diff(rs, gs) {
+                                report.violation(
+                                    &format!("shared-session-read-{class}"),
+                                    &format!("{}:v{} through the shared Session ({how}, cache {cache_name}) differs from a fresh Session", loc.label(), v),
+                                    json!({"ctx": ctx(&h), "how": how, "diff": detail}),
+                                );
+                            } else if rr != gr {
+                                let class = if rr.take != gr.take { "take" } else { "indexed-query" };
+                                report.violation(
+                                    &format!("shared-session-{class}-differs"),
+                                    &format!("{}:v{} {class} through the shared Session ({how}, cache {cache_name}) differs from a fresh Session", loc.label(), v),
+                                    json!({"ctx": ctx(&h), "how": how, "fresh": format!("{rr:?}").chars().take(600).collect::<String>(), "shared": format!("{gr:?}").chars().take(600).collect::<String>()}),
+                                );
+                            }
+                        }
+                        (Ok(_), Err(e)) => {
+                            report.violation(
+                                "shared-session-read-fails-where-fresh-session-succeeds",
+                                &format!("{}:v{} ({how}, cache {cache_name}): {}", loc.label(), v, e.chars().take(300).collect::<String>()),
+                                json!({"ctx": ctx(&h), "how": how, "error": e}),
+                            );
+                        }
+                        (Err(e), Ok(_)) => {
+                            report.violation(
+                                "fresh-session-read-fails-where-shared-session-succeeds",
+                                &format!("{}:v{} ({how}, cache {cache_name}): {}", loc.label(), v, e.chars().take(300).collect::<String>()),
+                                json!({"ctx": ctx(&h), "how": how, "error": e}),
+                            );
+                        }
+                        (Err(_), Err(_)) => {
+                            report.count("reads_failing_with_and_without_cache", 1);
+                        }
+                    }
+                }
+            }
+        }
+    }
+    let ms = session.metadata_cache_stats().await;
+    let is = session.index_cache_stats().await;
+    report.count(&format!("cache_{cache_name}_metadata_hits"), ms.hits);
+    report.count(&format!("cache_{cache_name}_metadata_misses"), ms.misses);
+    report.count(&format!("cache_{cache_name}_index_hits"), is.hits);
+    report.count(&format!("cache_{cache_name}_index_misses"), is.misses);
+    report.count(&format!("cache_{cache_name}_entries_at_end"), (ms.num_entries + is.num_entries) as u64);
+    report.count(&format!("histories_cache_{cache_name}"), 1);
+    if std::env::var("E_HIST_VERBOSE").is_ok() {
+        println!("config: {} cache {cache_name}", h.cfg.describe());
+        for s in &h.steps {
+            println!("{}", s.brief());
+        }
+        for p in &h.problems {
+            println!("PROBLEM {p}");
+        }
+        println!("metadata cache {:?} index cache {:?}", ms, is);
+    }
+    h.count_ops(report);
+    let nontrivial = reads >= 6 && (cache_name == "none" || ms.hits + is.hits > 0);
+    let sig = vmon::prng::fnv_str(&format!("{cache_name}:{n_tables}:{:x}", h.shape_sig()));
+    report.case(if nontrivial { Some(sig) } else { None });
+    if report.want_sample() && nontrivial {
+        report.sample(json!({"case": case, "config": h.cfg.describe(), "cache": cache_name, "tables": n_tables, "differential_reads": reads,
+                             "metadata_cache": {"hits": ms.hits, "misses": ms.misses, "entries": ms.num_entries},
+                             "index_cache": {"hits": is.hits, "misses": is.misses, "entries": is.num_entries}, "ops": h.ops_json(12)}));
+    }
+}
+
+fn selftest(args: &Args) -> i32 {
+    // corrupt the shared-session observation and check the differential oracle fires
+    let rt = tokio::runtime::Builder::new_current_thread().enable_all().build().unwrap();
+    let ok = rt.block_on(async {
+        let mut rng = Rng::for_case(args.seed, 0);
+        let mut cfg = HistCfg::random(&mut rng);
+        cfg.storage = lance_encoding::version::LanceFileVersion::V2_0;
+        let mut h = Hist::mem(rng, cfg);
+        h.create_table("memory://t0").await;
+        h.step(OpKind::Append).await;
+        let loc = Loc::main("memory://t0");
+        let ds = h.open_at(&loc, None, true).await.unwrap();
+        let (s, r) = full_read(&ds, &h, &[0, 1], &[]).await.unwrap();
+        let mut s2 = s.clone();
+        s2.rows[0][1] = vmon::table::Cell::Int(987654);
+        s2.digest ^= 1;
+        let mut r2 = r.clone();
+        r2.take.as_mut().unwrap().swap(0, 1);
+        diff(&s, &s2).is_some() && r != r2 && diff(&s, &s).is_none()
+    });
+    println!("SELFTEST C38 {}", if ok { "ok" } else { "FAILED" });
+    if ok {
+        0
+    } else {
+        2
+    }
 }
